@@ -134,9 +134,11 @@ static unsigned ref_parse_tags(const unsigned char *d, struct ref_tag *tags)
  *      is valid iff (+12 type == 1, +13 size == 4, +16 == running value) or all three are zero (checksum unused).
  *   v2/v3: descriptor and revoke blocks carry their checksum in the last 4 bytes, commit blocks at +16.
  * A commit block whose checksum is wrong but whose commit time (+48, 64 bit) is older than the previous transaction's is
- * a stale block of an older log: the log simply ends there.  Otherwise the transaction is the end of the log and,
- * without async_commit, is reported as a failed commit; with async_commit (v1) the walk goes on and a later commit
- * block proves corruption (failed commit = the transaction with the bad checksum).  v2/v3: a descriptor / revoke block
+ * a stale block of an older log: the log simply ends there.  Otherwise the transaction is the END OF THE LOG: neither it
+ * nor anything after it is replayed, with or without async_commit.  Without async_commit it is reported as a failed
+ * commit and the scan stops looking; with async_commit the scan looks further: v1: a later commit block proves
+ * corruption (failed commit = the transaction with the bad checksum); v2/v3: nothing more is reported (recovery.c
+ * never sets j_failed_commit there), later transactions are walked over but stay outside the replayed set.  v2/v3: a descriptor / revoke block
  * with a wrong checksum makes the next commit block decisive: newer commit time = corruption (recovery fails), older =
  * stale (log ends).
  */
@@ -227,8 +229,16 @@ static void ref_walk(__u32 s_sequence)
 					ref_terminated = 1;
 					continue;
 				}
+				if (end_set) {
+					/* ASSUME (async_commit, v2/v3): at most ONE commit block of the log fails its checksum.  do_one_pass() (and the
+					 * kernel) would move end_transaction forward to the later failure and so replay the first checksum-invalid
+					 * transaction; the rule decided here is "nothing from the first failed commit on is replayed". */
+					ref_bound_ok = 0;
+					ref_terminated = 1;
+					continue;
+				}
 				end_set = 1;
-				ref_end_ord = ord;
+				ref_end_ord = ord;	/* the log ends here whether or not the scan looks further (async_commit) */
 #if !FEAT_ASYNC
 				ref_failed_commit = 1;
 				ref_failed_ord = ord;
